@@ -8,6 +8,7 @@ structure D where
   s : S
   pending : Option Nat        -- a producer blocked in `send` (non-lossy, full queue)
   pendingResult : Option String
+  pendingDrop : Bool := false  -- the guard's drop is waiting for room to enqueue Shutdown (`send_timeout`; its timeout does not fire)
 
 def splitOps : List String → List String → List (List String)
   | [], cur => if cur.isEmpty then [] else [cur.reverse]
@@ -16,7 +17,9 @@ def splitOps : List String → List String → List (List String)
 /-- a blocked producer gets in as soon as there is room (or fails once the channel is disconnected) -/
 def settle (d : D) : D :=
   match d.pending with
-  | none => d
+  | none =>
+    if d.pendingDrop && (disconnected d.s || d.s.queue.length < d.s.cap) then { d with s := (step codeFacts d.s .dropGuard).1, pendingDrop := false }
+    else d
   | some id =>
     if disconnected d.s then { d with s := (step codeFacts d.s (.offer id)).1, pending := none, pendingResult := some "e" }
     else if d.s.queue.length < d.s.cap then { d with s := (step codeFacts d.s (.offer id)).1, pending := none, pendingResult := some "a" }
@@ -38,6 +41,7 @@ def stepOp (d : D) (op : List String) : Option (D × String) :=
   | ["gw", r] => let x := step codeFacts d.s (.writeDone (r == "ok")); some (settle { d with s := x.1 }, if x.2 == .none then "TIMEOUT" else showOut x.2)
   | ["gf", r] => let x := step codeFacts d.s (.flushDone (r == "ok")); some (settle { d with s := x.1 }, if x.2 == .none then "TIMEOUT" else showOut x.2)
   | ["drop"] => let x := step codeFacts d.s .dropGuard; some (settle { d with s := x.1 }, "-")
+  | ["dropf"] => some (settle { d with pendingDrop := true }, "-")
   | ["end"] => some (d, s!"dropped={d.s.dropped},writerdropped={if d.s.writerDropped then 1 else 0}")
   | _ => none
 
